@@ -39,6 +39,17 @@ def streams(tier, seed):
                             dattrs=dict(datt), rand_values=True)
             out.append([b, op_ft(b, "f2", zff=1, shift=shift, convert=conv, inverse=True, ppm=400000000 if conv else None,
                               style=style)])
+    # a DESCENDING axis (negative step): the forward transform of a signal on t = 0, -dt, -2dt, …, and the inverse transform of a
+    # spectrum stored high-to-low — the reconstructed axis keeps the sign of the step
+    for n in (4, 5, 8, 9):
+        for shift in (True, False):
+            dtn = -Fraction(1, rng.choice([2, 8, 10]))
+            a = uniform_new(rng, 0, ["t2"], [n], "t2", x0=Fraction(0), dt=dtn, cplx=True, attrs=dict(att), dattrs=dict(datt), rand_values=True)
+            f1 = op_ft(a, "t2", zff=1, shift=shift)
+            out.append([a, f1, dict(op_ft(a, "f2", zff=1, shift=shift, inverse=True, out=2, n_in=n), obj=1)])
+            b = uniform_new(rng, 0, ["f2"], [n], "f2", x0=Fraction(n // 2), dt=-Fraction(1, 4), cplx=True, attrs=dict(att), dattrs=dict(datt),
+                            rand_values=True)
+            out.append([b, op_ft(b, "f2", zff=1, shift=shift, inverse=True)])
     # N-D: the transformed dimension in every position
     for _ in range(1 if tier == "quick" else 4):
         for dims, shape, dim in shapes_with_dim_everywhere(rng, (2, 3), lo=2, hi=6):
